@@ -76,9 +76,14 @@ func (c *Ctx) bufReads(rule string, fn *ssa.Function, pi int, regionIn region, d
 					}
 					continue
 				}
-				callee := cc.StaticCallee()
+				callee := c.StaticCallee(cc) // a function variable assigned once resolves to its function (as under C16.append)
 				if callee == nil {
-					continue // dynamic callee with the buffer is already undecided under C16.append
+					for _, a := range cc.Args {
+						if reg[a] == rPrefix || reg[a] == rBuffer {
+							c.add("undecided", rule, fn, x.Pos(), "the caller's bytes are handed to a dynamic callee: what it reads of them is not followed")
+						}
+					}
+					continue
 				}
 				name := origin(callee).String()
 				for ai, a := range cc.Args {
